@@ -5,6 +5,8 @@ Adapter to use Polars ( https://www.pola.rs ) in the data algebra.
 
 from typing import Any, Callable, Dict, Iterable, List, Optional, Set
 
+import inspect
+
 import numpy as np
 import polars as pl
 
@@ -217,6 +219,14 @@ def _mapv(a, b: Dict, c):
     for k, v in b.items():
         res = pl.when(a == _build_lit(k)).then(_build_lit(v)).otherwise(res)
     return res
+
+
+# a join that promises no row order lets the lazy optimizer drop the order of everything around it (a group_by's
+# maintain_order, a sort below the join): the same pipeline then returns its rows, and what a later limit keeps,
+# differently from run to run. Newer Polars can be asked to keep the order of the join's inputs.
+_join_order_args = dict()
+if "maintain_order" in inspect.signature(pl.LazyFrame.join).parameters:
+    _join_order_args = {"maintain_order": "left_right"}
 
 
 def _populate_expr_impl_map(extend_context: bool) -> Dict[int, Dict[str, Callable]]:
@@ -1070,6 +1080,7 @@ class PolarsModel(data_algebra.data_model.DataModel):
                 right_on=op.on_b,
                 how=how,
                 suffix="_da_right_tmp",
+                **_join_order_args,
             )
             joined_columns = set(
                 res.collect_schema().names()
@@ -1134,6 +1145,7 @@ class PolarsModel(data_algebra.data_model.DataModel):
                 right_on=op.on_a,
                 how="left",
                 suffix="_da_left_tmp",
+                **_join_order_args,
             )
             joined_columns = set(
                 res.collect_schema().names()
